@@ -564,6 +564,8 @@ def run(ctx, config='rel-all'):
     # shared with C19.R1, restricted to the forked vector
     ns, nn, _ = c19.check_size_sinks(ctx, db, config, 'R7', lambda sp: sp.startswith('src/collections/raw_vec.rs') or sp.startswith('src/collections/vec.rs'))
     ctx.floor('R7', ns, 60, 'size sinks in vec.rs / raw_vec.rs')
+    # ---- R11 try_reserve* returning Err leaves the vector unchanged (std): shared with C19.R6
+    c19.check_rawvec_failure_atomicity(ctx, db, config, 'R11')
 
 
 def check_unwind_consistency(ctx, db):
